@@ -531,9 +531,21 @@ pub fn inputs_c10(r: &mut Rng, n: usize, _tier: &str, out: &mut dyn Write) {
             }
             22..=33 => {
                 // offset forms
-                let f = pick_fields(r);
+                let mut f = pick_fields(r);
                 let (nd, frac) = pick_frac(r);
-                let (sg, oh, om) = pick_offset(r);
+                let (mut sg, mut oh, mut om) = pick_offset(r);
+                if r.chance(1, 24) {
+                    // the written (local) date lies in year 0000 although the instant is in year 0001: RFC 3339 allows
+                    // year 0000, and a negative offset moves 0000-12-31T23:30-01:00 to 0001-01-01T00:30Z
+                    sg = 'm';
+                    if oh == 0 && om == 0 {
+                        oh = 1 + r.below(23) as i64;
+                        om = *r.pick(&[0i64, 30, 59]);
+                    }
+                    let off_min = oh * 60 + om;
+                    let local_min = 1440 - 1 - r.below(off_min as u64) as i64; // local time + offset reaches the next day
+                    f = F { y: 0, mo: 12, d: 31, h: local_min / 60, mi: local_min % 60, s: f.s.min(59) };
+                }
                 let form = if r.chance(1, 3) { "OT" } else { "O" };
                 let tsn = if form == "O" { "UTC" } else { ts };
                 let text = render(form, f, nd, frac, sg, oh, om, tsn);
